@@ -89,12 +89,15 @@ def build_impl(n, ld):
     if op == 'dict':
         return ld.new(dict(a[0]), immutable_warranty=a[1])
     d = K[0] if K else None
+    # integer parameters arrive as numpy scalars in about one program out of six (np.prod(..), len // np.int64(..) in user code)
+    import zlib
+    I = (lambda x: np.int64(x) if isinstance(x, int) and not isinstance(x, bool) else x) if zlib.crc32(n.key().encode()) % 6 == 0 else (lambda x: x)
     if op == 'map': return d.map(F.PyF(a[0]))
-    if op == 'parmap': return d.map(F.PyF(a[0]), num_workers=a[1], buffer_size=a[2], backend=a[3])
+    if op == 'parmap': return d.map(F.PyF(a[0]), num_workers=I(a[1]), buffer_size=I(a[2]), backend=a[3])
     if op == 'batchmap': return d.batch_map(F.PyF(a[0]))
-    if op == 'filter': return d.filter(F.PyQ(a[0]), lazy=a[1])
+    if op == 'filter': return d.filter(F.PyQ(a[0], a[2] if len(a) > 2 else 0), lazy=a[1])
     if op == 'catch': return d.catch(E_to_py(a[0]))
-    if op == 'prefetch': return d.prefetch(a[0], a[1], backend=a[3], catch_filter_exception=E_to_py(a[2]))
+    if op == 'prefetch': return d.prefetch(I(a[0]), I(a[1]), backend=a[3], catch_filter_exception=E_to_py(a[2]))
     if op == 'get':
         s = a[0]
         if s[0] == 'slice': return d[slice(s[1], s[2], s[3])]
@@ -123,15 +126,15 @@ def build_impl(n, ld):
     if op == 'zip': return ld.zip(*K)
     if op == 'keyzip': return ld.key_zip(*K)
     if op == 'items': return d.items()
-    if op == 'batch': return d.batch(a[0], drop_last=a[1])
+    if op == 'batch': return d.batch(I(a[0]), drop_last=a[1])
     if op == 'unbatch': return d.unbatch()
     if op == 'cycle': return d.cycle()
     if op == 'cache': return d.cache(lazy=a[0])
     if op == 'sort':
         kf = F.PyF(a[0]) if a[0] is not None else None
         return d.sort(kf, reverse=a[1])
-    if op == 'shard': return d.shard(a[0], a[1])
-    if op == 'tile': return d.tile(a[0])
+    if op == 'shard': return d.shard(I(a[0]), I(a[1]))
+    if op == 'tile': return d.tile(I(a[0]))
     if op == 'copy': return d.copy()
     raise ValueError(op)
 
@@ -512,8 +515,8 @@ class Gen:
         if op == 'parmap':
             w = r.choice([1, 2, 3]) if self.threads else 1
             return Node('parmap', (self.fcode(), w, w + r.randint(0, 2), 't'), [node])
-        if op == 'filter': return Node('filter', (self.qcode(), True), [node])
-        if op == 'filter_eager': return Node('filter', (self.qcode(), False), [node])
+        if op == 'filter': return Node('filter', (self.qcode(), True, r.choice([0, 0, 1, 2, 3, 4, 5])), [node])
+        if op == 'filter_eager': return Node('filter', (self.qcode(), False, r.choice([0, 0, 1, 2, 3, 4, 5])), [node])
         if op == 'batch': return Node('batch', (r.choice([1, 2, 2, 3, 4]), r.random() < 0.3), [node])
         if op in ('unbatch?', 'unbatch'):
             if op == 'unbatch?':
